@@ -247,11 +247,129 @@ def unpackOp (args : List String) (obs : String) : Verdict :=
     { model, spec }
   | _, _, _, _, _ => { model := "bad-arg" }
 
+/-- the model's sequence of `UnPack` calls, each into a fresh (zero) `Packet`, all kept; stops at the first failure -/
+def unpackLoopFresh (Z : ZLib) (t : Int) : Nat → Stream → List Pkt → List String → List Pkt × List String × Stream
+  | 0, s, held, acc => (held.reverse, acc.reverse, s)
+  | k + 1, s, held, acc =>
+    match unpack Z t Pkt.zero stale s with
+    | (.ok p, s') => unpackLoopFresh Z t k s' (p :: held) (s!"ok/{hexOfNat 8 p.id.toNat}/{dig p.data}/{p.cap}" :: acc)
+    | (.err, s') => (held.reverse, ("err" :: acc).reverse, s')
+    | (.panic, s') => (held.reverse, ("panic" :: acc).reverse, s')
+
+/-- `frame.hold`: every frame is read into a fresh `Packet`; all packets are held while the rest of the stream is
+read and while further `Pack`/`UnPack` calls reuse the pool; `H` is what the held packets contain afterwards.
+In the model a returned packet is a value (its payload was copied out of the pooled buffer, `Pkt.backing`). -/
+def hold (args : List String) (obs : String) : Verdict :=
+  match (kv args "t").bind parseInt, (kv args "tail").bind parseBx, (kv args "pks").bind parseItems with
+  | some t, some tail, some items =>
+    let frames := items.map fun it => pack (zOne it.z it.zi it.zr) t { id := it.id, data := it.data, cap := 0 } stale
+    let Zall : ZLib :=
+      { deflate := fun _ => []
+        inflate := fun _ => none
+        zread := fun x => (items.find? fun it => it.z == x).bind (·.zr) }
+    let model : String :=
+      match frames.find? (fun r => !r.isOk) with
+      | some .panic => "P panic"
+      | some _ => "P err"
+      | none =>
+        let fs := frames.filterMap fun r => match r with | .ok f => some f | _ => none
+        let stream := fs.flatten ++ tail
+        let (held, res, s) := unpackLoopFresh Zall t items.length (Stream.ofBytes stream) [] []
+        let h := held.map fun p => s!"{hexOfNat 8 p.id.toNat}/{dig p.data}"
+        s!"P ok {",".intercalate (fs.map dig)} U {",".intercalate res} rest={s.flat.length} H {",".intercalate h}"
+    let spec : Option String :=
+      match obs.splitOn " " with
+      | ["P", "ok", fds, "U", us, r, "H", hs] =>
+        let fdl := fds.splitOn ","
+        let okFrames := fdl.length == items.length &&
+          (List.zip items fdl).all fun (it, fd) => ((conformant t it.id it.data it.z it.zi).map dig).contains fd
+        if !okFrames then some "an emitted frame is not a conformant frame for its packet (independent reader)"
+        else
+          let ul := us.splitOn ","
+          let want := items.map fun it => s!"ok/{hexOfNat 8 it.id.toNat}/{dig it.data}/"
+          let wantH := items.map fun it => s!"{hexOfNat 8 it.id.toNat}/{dig it.data}"
+          if ul.contains "panic" then some "UnPack panicked"
+          else if ul.length != want.length || !((List.zip want ul).all fun (w, u) => u.startsWith w) then
+            some "a concatenation of frames was not recovered packet by packet in order"
+          else if r != s!"rest={tail.length}" then some s!"frames consumed inexactly: {r}, expected rest={tail.length}"
+          else if hs.splitOn "," != wantH then
+            some "a received packet no longer has the id and payload that were sent once later frames were processed (its Data is not its own)"
+          else none
+      | _ => some "Pack into a bytes.Buffer did not succeed, or the observation is incomplete"
+    { model, spec }
+  | _, _, _ => { model := "bad-arg" }
+
+/-- `none` | `same` | `other` -/
+def parseOpt3 (s : String) (same : Bytes) : Option (Option Bytes) :=
+  if s == "none" then some none
+  else if s == "same" then some (some same)
+  else if s == "other" then some (some [])
+  else none
+
+/-- `frame.big`: one near-maximum packet; the zlib blob is NOT on the line, only its length `zl` and first bytes
+`zh`; the observation carries the frame's length and first 15 bytes, from which the independent reader parses the
+two VarInt length fields itself. -/
+def big (args : List String) (obs : String) : Verdict :=
+  match (kv args "t").bind parseInt, (kv args "id").bind parseHexNat, (kv args "data").bind parseBx,
+        (kv args "p0").bind parseRecv, (kv args "rest").bind parseBx, (kv args "zl").bind (·.toNat?),
+        (kv args "zh").bind parseBx with
+  | some t, some idn, some data, some p₀, some rest, some zl, some zh =>
+    let id := BitVec.ofNat 32 idn
+    let same := lebId id ++ data
+    match (kv args "zi").bind (parseOpt3 · same), (kv args "zr").bind (parseOpt3 · same) with
+    | some zi, some zr =>
+      -- a surrogate blob of the right length and first bytes: the model is parametric in `deflate`
+      let surrogate := zh ++ List.replicate (zl - zh.length) 0#8
+      let Z : ZLib :=
+        { deflate := fun _ => surrogate
+          inflate := fun x => if x.length == zl then zi else none
+          zread := fun x => if x.length == zl then zr else none }
+      let model : String :=
+        match pack Z t { id, data, cap := data.length } stale with
+        | .ok frame =>
+          let (r, s) := unpack Z t p₀ stale (Stream.ofBytes (frame ++ rest))
+          s!"P ok n={frame.length} hd={hexOfBytes (frame.take 15)} U {showUnpack r s.flat.length}"
+        | .err => "P err"
+        | .panic => "P panic"
+      let spec : Option String :=
+        match obs.splitOn " " with
+        | "P" :: "ok" :: ns :: hds :: "U" :: u =>
+          match ((ns.drop 2).toString.toNat?), parseHex (hds.drop 3).toString with
+          | some n, some hd =>
+            -- the actual header, padded to the actual length: the independent reader parses the length fields itself
+            let frame' := hd ++ List.replicate (n - hd.length) 0#8
+            let body := same
+            let plainOk (c : Bytes) : Bool := n == c.length && hd == c.take 15
+            let good : Bool :=
+              if hd.length != min 15 n then false
+              else if t < 0 then plainOk (Spec.leb body.length ++ body)
+              else plainOk (Spec.leb (1 + body.length) ++ [0#8] ++ body) ||
+                (Spec.dataLengthField frame' != some 0 &&
+                  Spec.readFrame Z.inflate t frame' == some ((id, data), []))
+            if !good then some "emitted frame is not a conformant frame for this packet (independent reader on the actual header)"
+            else
+              let want := s!"ok id={hexOfNat 8 id.toNat} data={dig data}"
+              match u with
+              | ["ok", a, b, _, r] =>
+                if s!"ok {a} {b}" != want then some s!"round trip: expected {want}"
+                else if r != s!"rest={rest.length}" then some s!"did not consume exactly one frame: {r}, expected rest={rest.length}"
+                else none
+              | ["panic"] => some "UnPack panicked"
+              | ["hang"] => some "UnPack did not return"
+              | _ => some s!"round trip: expected {want}"
+          | _, _ => some "unparseable observation"
+        | _ => some "Pack into a bytes.Buffer did not succeed"
+      { model, spec }
+    | _, _ => { model := "bad-arg" }
+  | _, _, _, _, _, _, _ => { model := "bad-arg" }
+
 def handle (op : String) (args : List String) (obs : String) : Option Verdict :=
   match op with
   | "frame.rt" => some (rt args obs)
   | "frame.seq" => some (seq args obs)
   | "frame.unpack" => some (unpackOp args obs)
+  | "frame.hold" => some (hold args obs)
+  | "frame.big" => some (big args obs)
   | _ => none
 
 end Driver.C07
